@@ -85,7 +85,7 @@ func vh_AE() {
 	vAssert(resp.Term >= pre.term, "C08.respTerm>=pre")
 	vAssert(resp.Term <= post.durTerm, "C08.respTerm<=durable")
 	vAssert(vAnd(post.durTerm == post.term, post.durVote == post.votedFor), "C02|C08.persisted(N3)")
-	vAssert(vImplies(vAnd(post.term == pre.term, pre.votedFor != ""), post.votedFor == pre.votedFor), "C02|C08.vote-stable(G2)")
+	vAssert(vImplies(vAnd(post.term == pre.term, pre.votedFor != ""), post.votedFor == pre.votedFor), "C01|C02|C07|C08.vote-stable(G2)")
 	vAssert(vImplies(resp.Success, req.Term >= pre.term), "C02|C06.no-accept-stale-term")
 	// GA3 fact the sender-side harness (vh_SAE) assumes about replies
 	vAssert(vImplies(resp.Success, resp.Term == req.Term), "C01|C05.success-reply-carries-request-term")
